@@ -887,6 +887,26 @@ fn ir_roundtrip(file: &str) -> String {
         Ok(_) => problems.push("json-not-equal".to_string()),
         Err(e) => problems.push(format!("json-error:{}", e.replace(' ', "_"))),
     }
+    // the indexed form (what `frontend::parse` hands out) derives the same impls; it must survive too
+    // (seeded change C16-2: a validating `try_from` on deserialisation that refuses fold-count outputs)
+    match trustfall_core::ir::IndexedQuery::try_from(ir.clone()) {
+        Err(e) => problems.push(format!("index-error:{}", format!("{e:?}").replace(' ', "_"))),
+        Ok(indexed) => {
+            use trustfall_core::ir::IndexedQuery;
+            let routes: [(&str, Result<IndexedQuery, String>); 3] = [
+                ("ron", ron::to_string(&indexed).map_err(|e| e.to_string()).and_then(|s| ron::from_str::<IndexedQuery>(&s).map_err(|e| e.to_string()))),
+                ("ron-pretty", ron::ser::to_string_pretty(&indexed, ron::ser::PrettyConfig::default()).map_err(|e| e.to_string()).and_then(|s| ron::from_str::<IndexedQuery>(&s).map_err(|e| e.to_string()))),
+                ("json", serde_json::to_string(&indexed).map_err(|e| e.to_string()).and_then(|s| serde_json::from_str::<IndexedQuery>(&s).map_err(|e| e.to_string()))),
+            ];
+            for (fmt, r) in routes {
+                match r {
+                    Ok(back) if back == indexed => {}
+                    Ok(_) => problems.push(format!("indexed-{fmt}-not-equal")),
+                    Err(e) => problems.push(format!("indexed-{fmt}-error:{}", e.replace(' ', "_"))),
+                }
+            }
+        }
+    }
     // the arguments map travels with the compiled query in the test files: FieldValue (tagged)
     for (k, v) in &test.arguments {
         for (fmt, r) in [("json", fv_json(v)), ("ron", fv_ron(v))] {
@@ -904,7 +924,7 @@ impl Prop for C16 {
         "C16"
     }
     fn rule(&self) -> &'static str {
-        "Types: (ty-roundtrip t) for every nullability combination over base names Int, String, Float, Boolean, Vertex plus names that need escaping in JSON/RON (quote, backslash, non-ASCII, empty) for 0..3 list levels (0..4 thorough), a sparse stream at 28-30 levels, 31 levels (panic), and a few names for which the text is ambiguous (starting with `[` / ending with `!`: tagged ambiguous-name, correspondence only, exempt from the oracle); the implementation's answer combines Display→Type::parse, serde_json and ron (they must agree). Values: (tv-roundtrip v) = FieldValue → TransparentValue → serde_json text → TransparentValue → FieldValue, and (fv-serde v) = tagged FieldValue through serde_json and through ron, over every scalar boundary partition (both integer representations incl. 2^63 boundaries, boundary floats incl. ±0, subnormals, f64::MAX, 2^63, strings needing escapes), enum leaves, nested lists, and seeded random values to nesting depth 4 whose floats are boundary floats or uniformly random finite bit patterns; a dedicated stream carries the historical F-28 witness (0x1ce78591aab1887a) and further random finite floats at three nestings — all float leaves must come back bit-exact (answers render the exact float key; nothing is masked or filtered). A value case is non-trivial (nt:…) when it contains a list, a float, an unsigned integer or an enum — i.e. anything but a bare signed integer/string/bool/null. Compiled queries: (ir-roundtrip file) for every /repo/trustfall_core/test_data/tests/valid_queries/*.ir.ron: IRQuery → RON and → JSON → back, compared with ==; this stream is IMPLEMENTATION-ONLY EXPLORATION of the derived serde impls (the model's answer is the constant `ok`). ORACLE: round-trip result == original, and for the tagged routes the identical variant."
+        "Types: (ty-roundtrip t) for every nullability combination over base names Int, String, Float, Boolean, Vertex plus names that need escaping in JSON/RON (quote, backslash, non-ASCII, empty) for 0..3 list levels (0..4 thorough), a sparse stream at 28-30 levels, 31 levels (panic), and a few names for which the text is ambiguous (starting with `[` / ending with `!`: tagged ambiguous-name, correspondence only, exempt from the oracle); the implementation's answer combines Display→Type::parse, serde_json and ron (they must agree). Values: (tv-roundtrip v) = FieldValue → TransparentValue → serde_json text → TransparentValue → FieldValue, and (fv-serde v) = tagged FieldValue through serde_json and through ron, over every scalar boundary partition (both integer representations incl. 2^63 boundaries, boundary floats incl. ±0, subnormals, f64::MAX, 2^63, strings needing escapes), enum leaves, nested lists, and seeded random values to nesting depth 4 whose floats are boundary floats or uniformly random finite bit patterns; a dedicated stream carries the historical F-28 witness (0x1ce78591aab1887a) and further random finite floats at three nestings — all float leaves must come back bit-exact (answers render the exact float key; nothing is masked or filtered). A value case is non-trivial (nt:…) when it contains a list, a float, an unsigned integer or an enum — i.e. anything but a bare signed integer/string/bool/null. Compiled queries: (ir-roundtrip file) for every /repo/trustfall_core/test_data/tests/valid_queries/*.ir.ron: IRQuery → RON and → JSON → back, and its IndexedQuery (IndexedQuery::try_from) → RON, pretty RON and JSON → back, compared with ==; this stream is IMPLEMENTATION-ONLY EXPLORATION of the derived serde impls (the model's answer is the constant `ok`). ORACLE: round-trip result == original, and for the tagged routes the identical variant."
     }
     fn generate(&self, tier: Tier, rng: &mut Rng) -> Vec<Case> {
         let max_depth = if tier == Tier::Quick { 3 } else { 4 };
